@@ -105,6 +105,20 @@ def _impl_params(f, ctx):
     return set(a for a in s.get("args", []) if a in root.d.get("generics", []))
 
 
+def _only_called_from(ctx, path, allowed):
+    callers = {g.path for g in ctx.fx.fns.values() for c in ctx.cg.calls[g.path] if any(x.path == path for x in c.targets)}
+    return bool(callers) and callers <= set(allowed)
+
+
+def _builds_sector_after(f, seek_bb, sector_adt):
+    """f builds a Sector after the seek in block seek_bb and nowhere else: the absolute seek establishes the position
+    of the Sector it returns - the function is a seek helper by construction, whatever it is called."""
+    from cfg import block_dominators
+    dom = block_dominators(f)
+    aggs = [b for b, blk in enumerate(f.blocks) if not blk["cleanup"] for st in blk["stmts"] if st["s"] == "assign" and st["rv"]["r"] == "aggregate" and str(st["rv"].get("adt", "")) == sector_adt]
+    return bool(aggs) and all(seek_bb in dom.get(b, ()) for b in aggs)
+
+
 def seekfirst(ctx):
     res = RuleResult("R-SEEKFIRST", "backend I/O happens only inside Sector (built right after an absolute seek) or in the listed sequential constructors; no reliance on the backend's current position")
     tbl = ctx.table("seekfirst")
@@ -135,6 +149,9 @@ def seekfirst(ctx):
             owner = re.sub(r"(::\{closure#\d+\})+$", "", f.path)       # a closure belongs to the function it is written in
             if in_sector or f.path in allowed or owner in allowed:
                 res.ok({"function": f.path, "raw_backend_io": raw, "allowed_as": "Sector method" if in_sector else tbl["raw_backend_io_allowed"][owner]})
+            elif c.name.endswith("Seek::seek") and len(t["args"]) > 1 and Prov(f).operand(t["args"][1]).startswith("SeekFrom::Start(") and (_only_called_from(ctx, owner, allowed) or _builds_sector_after(f, bb, sector_adt)):
+                # a private helper that the listed seek helpers share: the same absolute seek, one call further down
+                res.ok({"function": f.path, "raw_backend_io": raw, "allowed_as": "absolute seek in a helper that only the listed seek helpers call"}, nontrivial=True)
             else:
                 res.fail(Finding("R-SEEKFIRST", "R-SEEKFIRST/%s/raw-backend-io/%s" % (f.path, c.name),
                                  "%s outside Sector and outside the listed seek helpers: the transfer would happen at whatever position the backend happens to have" % raw, f, t["span"]))
